@@ -137,9 +137,13 @@ def DK (E : Env S) (n : Nat) : Prop :=
 def RK (E : Env S) (n : Nat) : Prop :=
   ∀ s nt fr r x, WInv E s → E4g s → FRo E x s nt → FrK E s nt fr → fr.cost.fin < x → resume E n s nt fr = some r →
     WInv E r.1 ∧ E4g r.1 ∧ Keep4 x s r.1 ∧ (∀ S', S' ≠ nt → ¬ lastGe s S' x → FR E r.1 S') ∧
-    (∀ p fr', r.2 = .yield p fr' → FrK E r.1 nt fr') ∧
+    (∀ p fr', r.2 = .yield p fr' → FrK E r.1 nt fr' ∧ fr'.noSucc = false) ∧
     (r.2 = .ret → FR E r.1 nt ∧ IdxDone E r.1 nt fr.ci ∧ ∀ ci', Entered r.1 nt ci' → ci' ≤ fr.ci) ∧
-    (∀ ci q, q ∈ r.1.bankAt nt ci → q ∈ s.bankAt nt ci ∨ ∃ fr', r.2 = .yield q fr')
+    (∀ ci q, q ∈ r.1.bankAt nt ci → q ∈ s.bankAt nt ci ∨ ∃ fr', r.2 = .yield q fr') ∧
+    (r.2 = .ret → (r.1.queueOf nt = [] ∧ (r.1.clOf nt).length = fr.ci + 1) ∨
+      (∃ e q, r.1.queueOf nt = e :: q ∧ (r.1.clOf nt)[fr.ci + 1]? = some e.cost)) ∧
+    ((fr.noSucc = false ∨ ∃ e q, s.queueOf nt = e :: q ∧ e.cost = fr.cost) → r.2 = .ret → fr.hasGen = false →
+      r.1.failedByEmpties = true)
 def AK (E : Env S) (n : Nat) : Prop :=
   ∀ s as cs ae af acc done r x, WInv E s → E4g s → FRset E x s →
     (∀ a c, (a, c) ∈ as.zip cs → ∃ e, (s.clOf a)[c]? = some e ∧ e.fin < x) →
@@ -265,17 +269,17 @@ theorem dk_step (E : Env S) (n : Nat) (ihR : RK E n) (ihD : DK E n) : DK E (n + 
   · cases h
   · next s1 hr =>
     cases h
-    obtain ⟨g1, g2, g3, g4, _, g6, _⟩ := ihR _ _ _ _ x hw h4 hfo hk hx hr
+    obtain ⟨g1, g2, g3, g4, _, g6, _, _, _⟩ := ihR _ _ _ _ x hw h4 hfo hk hx hr
     obtain ⟨q1, q2, _⟩ := g6 rfl
     refine ⟨g1, g2, fun S' hl' => ?_, g3, q2⟩
     by_cases hS : S' = nt
     · subst hS; exact q1
     · exact g4 S' hS hl'
   · next s1 p fr1 hr =>
-    obtain ⟨g1, g2, g3, g4, g5, _⟩ := ihR _ _ _ _ x hw h4 hfo hk hx hr
+    obtain ⟨g1, g2, g3, g4, g5, _, _, _, _⟩ := ihR _ _ _ _ x hw h4 hfo hk hx hr
     obtain ⟨_, _, c3⟩ := (cost_all E n).2.2.2.1 _ _ _ _ hw.c hk.fc hr
     obtain ⟨_, _, c6, c7⟩ := c3 p fr1 rfl
-    have hk1 := g5 p fr1 rfl
+    have hk1 := (g5 p fr1 rfl).1
     have hfo1 : FRo E x s1 nt := frp_now E x (· ≠ nt) s s1 g4 g3
     obtain ⟨q1, q2, q3, q4, q5⟩ := ihD _ _ _ _ x g1 g2 hfo1 hk1 (by rw [c7]; exact hx) h
     obtain ⟨_, e2⟩ := (cost_all E n).2.2.1 _ _ _ _ g1.c hk1.fc h
